@@ -815,6 +815,11 @@ pool_case(P.ProbCover, "seeded-n_classes-2-deltas",
           {"cluster_algo_dict": SEEDED_N1, "n_classes": 2,
            "deltas": fresh(lambda: [0.5, 1.0, 1.5]), "alpha": 0.75},
           modes=MAPPED)
+# array-valued constructor parameter handed over as a caller-owned float64 ndarray in no particular order (seed R7C05)
+pool_case(P.ProbCover, "seeded-deltas-ndarray",
+          {"cluster_algo_dict": SEEDED_N1, "n_classes": 2,
+           "deltas": fresh(lambda: np.array([1.5, 0.5, 1.25, 1.0])), "alpha": 0.75},
+          modes=MAPPED)
 pool_case(P.ProbCover, "seeded-update", {"cluster_algo_dict": SEEDED},
           modes=MAPPED, lazy_none=_PC_LAZY,
           extra=lambda d, m, c: {"update": True})
@@ -1384,6 +1389,10 @@ clf_case(SklearnClassifier, "gnb-classes",
 clf_case(SklearnClassifier, "gnb-classes-cost_matrix",
          {"estimator": _GNB, "classes": CLASSES, "cost_matrix": COST},
          partial=True, predict=PP)
+# an estimator whose fit takes more (defaulted) arguments than most: `DecisionTreeClassifier.fit(X, y, sample_weight, check_input)`
+_TREE = fresh(lambda: __import__("sklearn.tree", fromlist=["DecisionTreeClassifier"]).DecisionTreeClassifier(random_state=0))
+clf_case(SklearnClassifier, "tree-classes", {"estimator": _TREE, "classes": CLASSES}, predict=PP,
+         lazy_none=("cost_matrix",))
 clf_case(SklearnClassifier, "lr", {"estimator": _LR}, predict=PP,
          lazy_none=("classes", "cost_matrix"))
 clf_case(SklearnClassifier, "lr-no-sw", {"estimator": _LR}, sw=False,
